@@ -393,6 +393,28 @@ def loop_updates(ctx, b, blocks):
     return ups
 
 
+
+def cursor_and_start(ctx, b, m):
+    """(cursor local, subpath-start local) of a path consumer, found structurally: the cursor is the named Option local
+    assigned Some(<LineTo payload>) on every path of the LineTo arm; the start record is the other named Option local
+    assigned Some(<MoveTo payload>) in the MoveTo arm"""
+    import props.c16 as c16
+    an = ctx.an(b)
+    curs = c16.cursor_locals(ctx, b, m)
+    starts = set()
+    if 'MoveTo' in m.arms:
+        region = arm_region(an.cfg, m.bb, m.arms['MoveTo'])
+        for d in an.defs:
+            if d.kind != 'assign' or d.partial or d.bb not in region or not b.locals[d.local].get('name'):
+                continue
+            t = an.def_term(d)
+            if t[0] == 'agg' and (t[2] or '').endswith('Option') and t[3] == 'Some' and c16.payload(t[4][0][1], 'MoveTo', 0):
+                starts.add(d.local)
+    starts -= curs
+    if len(curs) == 1 and len(starts) == 1:
+        return list(curs)[0], list(starts)[0]
+    return None
+
 def r09_1(ctx):
     """dash state restarted for every subpath"""
     R = 'R09.1'
@@ -857,10 +879,10 @@ def r09_6(ctx):
     region = arm_region(cfg, m.bb, m.arms['Close'])
     stop = cfg.ipdom(m.bb)
     exits = [stop] if stop is not None else None
-    sp = named_local(b, 'start_point')
-    cp = named_local(b, 'cur_pt')
-    if not ctx.check(sp is not None and cp is not None, R, key + '|cursors', b.loc(), 'cur_pt / start_point found', 'cannot find the locals cur_pt / start_point (fail closed)'):
+    cs = cursor_and_start(ctx, b, m)
+    if not ctx.check(cs is not None, R, key + '|cursors', b.loc(), 'cursor and subpath-start record found', 'cannot identify the cursor and the subpath-start record of dash_path (fail closed)'):
         return
+    cp, sp = cs
     def is_start(t):
         t = strip_all(t)
         return t[0] == 'field' and t[2] == '0' and t[4] == 'Some' and strip_all(t[1])[0] in ('phi', 'mem', 'rec') and strip_all(t[1])[1] == sp
@@ -1025,3 +1047,149 @@ def r04_7(ctx):
         ctx.check(sg == want, R, 'stroke|%s wound like the segments' % name, loc, '%s has the orientation of the segment rectangles' % name,
                   'the %s is wound the opposite way to the segment rectangles (signed area %s vs %s): the stroke outline is filled as one NonZero path, so wherever this piece overlaps another one the windings cancel and the stroke has a hole (e.g. a square cap over a neighbouring dash, a bevel over its segments)' % (name, '> 0' if sg > 0 else '< 0', '> 0' if want and want > 0 else '< 0'))
     ctx.floor(R, 'straight pieces with a decided orientation', len(signs), 4)
+
+
+def r04_8(ctx):
+    """the stroke outline is a NonZero path whatever the winding rule of the stroked path: the pieces overlap and rely on
+    the NonZero union; the builder that collects them is a fresh PathBuilder::new() (whose winding is NonZero)"""
+    R = 'R04.8'
+    b = ctx.body(ST + 'stroke_to_path', R)
+    an = ctx.an(b)
+    key = 'stroke::stroke_to_path'
+    rts = shared.ret_terms(ctx, b)
+    ok = bool(rts)
+    shown = []
+    for t in rts:
+        t = strip_all(t)
+        good = False
+        if is_call(t, PB + 'finish'):
+            recv = strip_all(t[2][0])
+            if recv[0] in ('mem', 'phi'):
+                ds = [d for d in an.defs_of.get(recv[1], []) if not d.partial and d.kind in ('assign', 'call', 'local')]
+                terms = [an.call_term(d.bb) if d.kind == 'call' else an.def_term(d) for d in ds]
+                shown += [fmt(b, x)[:80] for x in terms]
+                good = bool(terms) and all(is_call(strip_all(x), PB + 'new') and not strip_all(x)[2] for x in terms)
+        ok = ok and good
+    ctx.check(ok, R, key + '|outline winding', b.loc(), 'result = PathBuilder::new()....finish()',
+              'the stroke outline is not collected in a fresh PathBuilder::new() (builder initialised by %s): its winding rule can follow the input path, and under EvenOdd the overlapping pieces of the outline (segments, joins, caps) cancel each other' % shown)
+    nb = ctx.body(PB + 'new', R)
+    rt = shared.ret_terms(ctx, nb)
+    okn = len(rt) == 1
+    if okn:
+        D = Deps(ctx.an(nb))
+        D.closure(rt[0])
+        okn = any(x[0] == 'agg' and x[2] and x[2].endswith('Winding') and x[3] == 'NonZero' for x in D.visited) and not any(x[0] == 'agg' and x[2] and x[2].endswith('Winding') and x[3] == 'EvenOdd' for x in D.visited)
+    ctx.check(okn, R, 'path_builder::PathBuilder::new|NonZero', nb.loc(), 'PathBuilder::new() starts a NonZero path', 'PathBuilder::new() does not start a NonZero path')
+
+
+def r09_7(ctx):
+    """a dash that is still on when the closing segment ends is drawn up to the subpath's start: on the `on` branch after
+    the closing segment was chopped, every path closes the outline (whole subpath on), re-joins a first dash known to be
+    non-empty, or emits line_to(start)"""
+    R = 'R09.7'
+    b = ctx.body(DASH, R)
+    an = ctx.an(b)
+    cfg = an.cfg
+    key = 'dash::dash_path'
+    m = op_match(ctx, b, R)
+    if m is None or 'Close' not in m.arms:
+        return
+    cl = chop_loops(ctx, b, m).get('Close')
+    if not ctx.check(cl is not None, R, key + '|Close chop loop', b.loc(), 'chopping loop of the Close arm found', 'cannot find the chopping loop of the Close arm (fail closed)'):
+        return
+    h, lb = cl
+    region = arm_region(cfg, m.bb, m.arms['Close'])
+    stop = cfg.ipdom(m.bb)
+    cs = cursor_and_start(ctx, b, m)
+    sp = cs[1] if cs else None
+    buf = None
+    for i, l in enumerate(b.locals):
+        if l.get('name') and l['ty'].startswith('std::vec::Vec<euclid::Point2D'):
+            buf = i
+    if not ctx.check(sp is not None and buf is not None, R, key + '|anchors', b.loc(), 'start_point and the first-dash buffer found', 'cannot find start_point / the first-dash buffer (fail closed)'):
+        return
+    def is_start(t):
+        t = strip_all(t)
+        return t[0] == 'field' and t[2] == '0' and t[4] == 'Some' and strip_all(t[1])[0] in ('phi', 'mem', 'rec') and strip_all(t[1])[1] == sp
+    def is_buf(t):
+        t = strip_all(t)
+        r0, n0 = field_path(t)
+        return r0[0] in ('mem', 'phi') and r0[1] == buf
+    on_sw = []
+    for si, t in b.terminators('switch'):
+        if si in region and si not in lb and cfg.dominates(h, si) and t.get('ty') == 'bool':
+            c = strip_all(an.term_at(si, len(b.blocks[si]['st']), t['o']))
+            if c[0] == 'field' and c[2] == 'on' and (c[3] or '').endswith('DashState'):
+                on_sw.append((si, t))
+    if not ctx.check(len(on_sw) == 1, R, key + '|on test after the closing segment', b.loc(), 'one test of state.on after the closing segment', 'expected one test of state.on after the closing segment was chopped, found %d (fail closed)' % len(on_sw)):
+        return
+    si, t = on_sw[0]
+    on_t = t['otherwise']
+    marked = set()
+    for bi, d, ct in calls_in(ctx, b, region):
+        if d == PB + 'close':
+            marked.add(bi)
+        if d == PB + 'line_to':
+            a1, a2 = strip_all(ct[2][1]), strip_all(ct[2][2])
+            if a1[0] == 'field' and a1[2] == 'x' and is_start(a1[1]) and a2[0] == 'field' and a2[2] == 'y' and is_start(a2[1]):
+                marked.add(bi)
+    # edges on which the buffered first dash is known to be non-empty, and which lead into a loop that emits it
+    for s2, t2 in b.terminators('switch'):
+        if s2 not in region or t2.get('ty') != 'bool':
+            continue
+        c = an.term_at(s2, len(b.blocks[s2]['st']), t2['o'])
+        neg = False
+        while c[0] == 'un' and c[1] == 'Not':
+            c, neg = c[2], not neg
+        nonempty_when = None
+        if c[0] == 'bin' and c[1] in ('Gt', 'Ne') and const_val(c[3]) == 0 and is_call(strip_all(c[2]), '::len') and is_buf(strip_all(c[2])[2][0]):
+            nonempty_when = True
+        elif c[0] == 'bin' and c[1] == 'Eq' and const_val(c[3]) == 0 and is_call(strip_all(c[2]), '::len') and is_buf(strip_all(c[2])[2][0]):
+            nonempty_when = False
+        elif is_call(c, 'is_empty') and is_buf(c[2][0]):
+            nonempty_when = False
+        if nonempty_when is None:
+            continue
+        if neg:
+            nonempty_when = not nonempty_when
+        false_t = [tt for v, tt in t2['targets'] if v == '0']
+        tgt = t2['otherwise'] if nonempty_when else (false_t[0] if false_t else None)
+        if tgt is None:
+            continue
+        # the branch emits the buffer: some line_to fed by the buffer is reachable inside the arm from there
+        emits = False
+        for bi, d, ct in calls_in(ctx, b, cfg.reachable_from(tgt, removed=[stop] if stop is not None else []) & region):
+            if d == PB + 'line_to':
+                D = Deps(an)
+                for a in ct[2][1:]:
+                    D.closure(a)
+                    if any((x[0] in ('mem', 'phi') and x[1] == buf) for x in (D.visited | D.touched)):
+                        emits = True
+        if emits:
+            marked.add(tgt)
+    ok, pth = cfg.must_pass_through(on_t, marked, exits=[stop] if stop is not None else None)
+    ctx.check(ok and bool(marked), R, key + '|closing dash reaches the start', b.loc(b.blocks[si]['t'].get('sp')), 'on every `on` path: close(), a non-empty first dash re-joined, or line_to(start)',
+              'when the dash pattern is on at the end of a closed subpath there is a path through the Close arm (blocks %s) that neither closes the outline, nor re-joins a first dash known to be non-empty, nor draws to the subpath\'s start: the last dash on the closing segment is not drawn (e.g. an offset that starts the subpath in a gap, so no first dash is buffered)' % pth)
+
+
+def r09_8(ctx):
+    """subpath protocol of dash_path: between ops, whenever there is a current point there is a recorded subpath start
+    (a LineTo without a current point starts a subpath at its point, exactly as in Path::flatten, the stroker and the
+    fill path): otherwise Close cannot find where to return to and the closing segment of a LineTo-led subpath is
+    never dashed"""
+    import typestate
+    R = 'R09.8'
+    b = ctx.body(DASH, R)
+    an = ctx.an(b)
+    key = 'dash::dash_path'
+    m = op_match(ctx, b, R)
+    if m is None:
+        return
+    cs = cursor_and_start(ctx, b, m)
+    if not ctx.check(cs is not None, R, key + '|cursors', b.loc(), 'cursor and subpath-start record found', 'cannot identify the cursor and the subpath-start record of dash_path (fail closed)'):
+        return
+    at = typestate.run(ctx, b, list(cs))
+    sts = at.get(m.bb, set())
+    ctx.check(('N', 'N') in sts and ('S', 'S') in sts, R, key + '|protocol states (positive control)', b.loc(), 'states between ops: %s' % sorted(sts), 'the typestate interpreter does not reach the op loop with the expected states (%s): fail closed' % sorted(sts))
+    ctx.check(('S', 'N') not in sts, R, key + '|cursor implies start', b.loc(), 'no op leaves a current point without a subpath start',
+              'an op sequence reaches the op loop with a current point but no subpath start (`%s` is Some while `%s` is None), e.g. a path that begins with line_to: Close then has nowhere to return to, the closing segment is not dashed and the cursor is lost, although flatten, the stroker and fill all treat the first line_to as the subpath start' % (b.local_name(cs[0]), b.local_name(cs[1])))
